@@ -35,6 +35,14 @@ CATS = [('created', r'(?:Would be c|C)reated/updated MIBs: (.*)'),
 
 
 def plan(tier, seed):
+    p = _plan(tier)
+    if not HAVE_INOTIFY:        # the snapshot oracle still decides; the event stream cannot be required
+        p['floors'].pop('dryrun_inotify_windows', None)
+        p['floors'].pop('inotify_positive_control_events', None)
+    return p
+
+
+def _plan(tier):
     if tier == 'quick':
         return {'n': 360, 'budget_s': 50, 'min_evals': 300,
                 'floors': {'mibdump_runs': 180, 'mibcopy_runs': 120, 'dryrun_inotify_windows': 20,
@@ -82,12 +90,19 @@ def parse_report(err):
     return rep
 
 
+HAVE_INOTIFY = bool(shutil.which('inotifywait'))
+
+
 class Inotify(object):
     def __init__(self, root):
         self.root = root
         self.proc = None
+        self.events = []
+        self.ready = False
 
     def __enter__(self):
+        if not HAVE_INOTIFY:
+            return self         # snapshots alone decide; counted as not ready
         self.proc = subprocess.Popen(
             ['inotifywait', '-m', '-r', '-q', '-e', 'create,modify,delete,moved_to,moved_from,attrib,close_write',
              '--format', '%e %w%f', self.root], stdout=subprocess.PIPE, stderr=subprocess.PIPE)
@@ -108,6 +123,8 @@ class Inotify(object):
         return self
 
     def __exit__(self, *exc):
+        if self.proc is None:
+            return False
         time.sleep(0.05)
         self.proc.terminate()
         try:
@@ -203,7 +220,8 @@ def case_mibdump(idx, rng, tier, res):
         if watch:
             with Inotify(dst) as ino:
                 rc, err, out = run_tool(MIBDUMP, args + names, home)
-            res.count('dryrun_inotify_windows')
+            if ino.ready:
+                res.count('dryrun_inotify_windows')
             if not ino.ready:
                 res.count('inotify_not_ready')
         else:
